@@ -3,9 +3,11 @@ package main
 // C07 — ReadOnlyFs: every mutator fails with a permission error, nothing done through the
 // wrapper or its handles changes the source, reads are transparent.
 import (
-	"os"
 	"fmt"
+	"os"
+	"sort"
 	"strings"
+	"time"
 
 	"github.com/spf13/afero"
 )
@@ -151,6 +153,7 @@ func runC07(c *Ctx) {
 	mixedStackCases(c, []string{"ro(cow(mem,mem))", "ro(re:0(mem))", "ro(bp:2f64(cow(mem,mem)))", "ro(cow(ro(mem),mem))"}, map[bool]int{false: 120, true: 4000}[c.Tier == "thorough"], "ux")
 	runOSBase(c, "C07")
 	runC07OverUnion(c)
+	runC07OddArguments(c)
 	for i := 0; i < n; i++ {
 		st := stacks[i%len(stacks)]
 		items := genC07(c.Rng.Fork(), st)
@@ -212,4 +215,70 @@ func runC07OverUnion(c *Ctx) {
 		}
 	}
 	c.Extra["over_union"] = fmt.Sprintf("%d listings/reads through ReadOnlyFs over a CopyOnWriteFs with a directory in both layers (oracle only)", n)
+}
+
+// Modifying calls with arguments that are no-ops on some filesystems (zero times, mode 0, uid -1,
+// empty names): through ReadOnlyFs every one of them is refused and the in-memory source,
+// which stores whatever it is given, stays as it was (oracle only)
+func runC07OddArguments(c *Ctx) {
+	n := 0
+	for depth := 1; depth <= 2; depth++ {
+		src := afero.NewMemMapFs()
+		afero.WriteFile(src, "/d/f", []byte("content"), 0o644)
+		old := time.Unix(1000000000, 0)
+		src.Chtimes("/d/f", old, old)
+		src.Chtimes("/d", old, old)
+		var w afero.Fs = src
+		for i := 0; i < depth; i++ {
+			w = afero.NewReadOnlyFs(w)
+		}
+		snap := func() string {
+			es := afero.VerifDump(src)
+			sort.Slice(es, func(i, j int) bool { return es[i].Path < es[j].Path })
+			var b strings.Builder
+			for _, e := range es {
+				fmt.Fprintf(&b, "%s|%v|%x|%o|%d;", e.Path, e.Dir, e.Data, uint32(e.Mode), e.ModTime.UnixNano())
+			}
+			return b.String()
+		}
+		want := snap()
+		calls := []struct {
+			what string
+			do   func() error
+		}{
+			{"Chtimes-zero", func() error { return w.Chtimes("/d/f", time.Time{}, time.Time{}) }},
+			{"Chtimes-zero-dir", func() error { return w.Chtimes("/d", time.Time{}, time.Time{}) }},
+			{"Chtimes-same", func() error { return w.Chtimes("/d/f", old, old) }},
+			{"Chmod-zero", func() error { return w.Chmod("/d/f", 0) }},
+			{"Chmod-same", func() error { return w.Chmod("/d/f", 0o644) }},
+			{"Chown-minus-one", func() error { return w.Chown("/d/f", -1, -1) }},
+			{"Rename-same", func() error { return w.Rename("/d/f", "/d/f") }},
+			{"Remove-missing", func() error { return w.Remove("/nope") }},
+			{"RemoveAll-missing", func() error { return w.RemoveAll("/nope") }},
+			{"RemoveAll-empty-name", func() error { return w.RemoveAll("") }},
+			{"MkdirAll-existing", func() error { return w.MkdirAll("/d", 0o755) }},
+			{"Mkdir-existing", func() error { return w.Mkdir("/d", 0o755) }},
+		}
+		for _, cl := range calls {
+			n++
+			c.Count("oddargs." + cl.what)
+			var err error
+			func() {
+				defer func() {
+					if r := recover(); r != nil {
+						err = fmt.Errorf("panic: %v", r)
+					}
+				}()
+				err = cl.do()
+			}()
+			if err == nil {
+				c.Oracle("FAIL oa%d modifier-succeeded:odd-arguments:%s %s through ReadOnlyFs (depth %d) returned nil", n, cl.what, cl.what, depth)
+			}
+			if got := snap(); got != want {
+				c.Oracle("FAIL oa%d source-changed:odd-arguments:%s after %s through ReadOnlyFs (depth %d) the source is [%s], was [%s]", n, cl.what, cl.what, depth, got, want)
+				want = got
+			}
+		}
+	}
+	c.Extra["odd_arguments"] = fmt.Sprintf("%d modifying calls with no-op looking arguments (zero times, same values, missing names) through ReadOnlyFs over MemMapFs: refused, source dump unchanged (oracle only)", n)
 }
